@@ -24,7 +24,7 @@ struct Session {
 pub struct C13 {
 	gen: HistGen,
 	sess: Option<Session>,
-	pre: Option<(usize, u64, bool, String)>,
+	pre: Option<(usize, std::collections::BTreeMap<String, u64>, bool, String)>,
 	n_req: u64,
 	history_len: usize,
 }
@@ -179,7 +179,7 @@ impl Prop for C13 {
 				class = "i_bad";
 				json!({"jsonrpc": "2.0", "method": "init_secure_api", "params": {"ecdh_pubkey": "02ffff"}, "id": id}).to_string()
 			}
-			"call" | "replay_current" | "wrong_method" | "init_enc" => {
+			"call" | "replay_current" | "wrong_method" | "init_enc" | "slow_call" | "slow_rekey" => {
 				let key = match &s.current {
 					Some(k) => k.clone(),
 					None => return OpRes::Skipped("no session key yet".into()),
@@ -305,7 +305,57 @@ impl Prop for C13 {
 				String::from_utf8_lossy(&r.bytes(40)).to_string()
 			}
 		};
-		let (status, reply) = s.ep.post_owner(body.as_bytes());
+		let mut slow_new_key: Option<SecretKey> = None;
+		let (status, reply) = if kind == "slow_call" || kind == "slow_rekey" {
+			// a slow body: the request head arrives, another exchange completes, then the
+			// body arrives. Across a re-key the envelope was made under a key that is
+			// superseded by the time its ciphertext is there: it must be refused.
+			let ep = &s.ep;
+			let cur = s.current.clone();
+			let rekey = kind == "slow_rekey";
+			let mut between = || {
+				if rekey {
+					let (sk, pk) = client_key(seed ^ 0x51);
+					let hex = {
+						let secp = static_secp_instance();
+						let secp = secp.lock();
+						pk.serialize_vec(&secp, true).to_vec().to_hex()
+					};
+					let b = json!({"jsonrpc": "2.0", "method": "init_secure_api", "params": {"ecdh_pubkey": hex}, "id": id + 1}).to_string();
+					let (_, r) = ep.post_owner(b.as_bytes());
+					let v: Value = serde_json::from_str(&r).unwrap_or(Value::Null);
+					if let Some(h) = v["result"]["Ok"].as_str() {
+						slow_new_key = shared_from(h, &sk);
+					}
+				} else if let Some(k) = &cur {
+					if let Some(b) = envelope(id + 1, "accounts", &json!({"token": Value::Null}), k) {
+						let _ = ep.post_owner(b.as_bytes());
+					}
+				}
+			};
+			let (st, r, waited) = ep.post_owner_slow(body.as_bytes(), &mut between);
+			if !waited {
+				return OpRes::Err("HARNESS the owner handler answered before the body arrived".into());
+			}
+			(st, r)
+		} else {
+			s.ep.post_owner(body.as_bytes())
+		};
+		if kind == "slow_rekey" {
+			match slow_new_key.clone() {
+				Some(k) => {
+					// the envelope's key is superseded now: an unauthenticated request
+					class = "iii";
+					used_key = None;
+					if let Some(c) = s.current.take() {
+						s.old.push(c);
+					}
+					s.current = Some(k);
+					s.epoch += 1;
+				}
+				None => return OpRes::Err("HARNESS key exchange inside a slow request failed".into()),
+			}
+		}
 		let rv: Value = serde_json::from_str(&reply).unwrap_or(Value::Null);
 		let mut decrypts = false;
 		let mut inner = Value::Null;
@@ -368,7 +418,7 @@ impl Prop for C13 {
 		} else {
 			vec![
 				"call", "call", "call", "call", "plain", "plain", "plain", "init", "init_enc", "init_bad", "old_key",
-				"replay_old", "wrong_key", "flip_body", "flip_nonce", "array", "nested", "truncate",
+				"replay_old", "wrong_key", "flip_body", "flip_nonce", "array", "nested", "truncate", "slow_call", "slow_rekey", "slow_rekey",
 				"garbage", "wrong_method", "replay_current",
 			]
 		};
@@ -392,7 +442,7 @@ impl Prop for C13 {
 			let w = args["w"].as_u64().unwrap_or(0) as usize;
 			if w < run.ex.world.wallets.len() && run.ex.world.wallets[w].inst.is_some() {
 				let snap = run.ex.world.snap(w);
-				self.pre = Some((w, run.ex.world.dir_digest(w), snap.open, snap.active));
+				self.pre = Some((w, run.ex.world.dir_state(w), snap.open, snap.active));
 			}
 		}
 	}
@@ -424,7 +474,8 @@ impl Prop for C13 {
 			class != "ii" || kind != "call",
 		);
 		let snap = run.ex.world.snap(w);
-		let dig1 = run.ex.world.dir_digest(w);
+		let dig1 = run.ex.world.dir_state(w);
+		let kinds = crate::world::World::dir_diff_kinds(&dig0, &dig1);
 		let unchanged = dig0 == dig1 && snap.open == open0 && (!snap.open || snap.active == active0);
 		let _ = args;
 		match class.as_str() {
@@ -465,8 +516,8 @@ impl Prop for C13 {
 						"unauthenticated_no_effect",
 						&format!("unauthenticated_request_changed_state:{}:{}", kind, method),
 						format!(
-							"a {} request ({}) changed the wallet (dir digest {} -> {}, open {} -> {}, active {} -> {})",
-							kind, method, dig0, dig1, open0, snap.open, active0, snap.active
+							"a {} request ({}) changed the wallet (durable items changed: {}; open {} -> {}, active {} -> {})",
+							kind, method, kinds, open0, snap.open, active0, snap.active
 						),
 					));
 					return v;
